@@ -92,6 +92,13 @@ TRUST_COMMON = [
     "harness/driver glue: request parsing and canonicalisation on both sides",
 ]
 
+ENGINES = [
+    {"name": "rawdb", "path": "harness/src/rawdb_engine.rs + lean/Driver/RawdbProto.lean", "serves_properties": ["C01", "C02", "C13"],
+     "kind_free_text": "generates region-operation histories, runs them on the real rawdb crate in-process and on the compiled Lean model, compares the projected state after every request; model-free oracles (reference byte vectors, extent invariants, state-unchanged-after-refusal) on the implementation"},
+]
+
+NOT_CLAIMED = {}
+
 PROPS = {
     "C01": dict(
         lean="AnyDB.Props.C01",
@@ -101,6 +108,9 @@ PROPS = {
         ],
         rule=RAWDB_RULE,
         assumptions=["page cache coherent with the shared mapping (no crash in this property)"],
+        level_text="Lean 4 theorems (all offsets, sizes and payloads) for the byte-level laws every placement path of write_with is built from: read-own-write and frame of Database::write, the fits path refines the reference byte vector and is isolated from every other slot and byte, the relocation copy reproduces the source bytes, file growth and hole punching keep all other bytes, truncate/rename touch metadata only, refused writes are no-ops. The composition over whole histories (all four placement paths, remove/flush/reopen) is validated by the lock-step correspondence: real rawdb = compiled Lean model = independent reference byte vectors after every request. The single history-level theorem C01_run is not proved yet (needs C02's whole-layout invariant); stated as open in Props/C01.lean.",
+        level_note="Trusted: Lean kernel + {propext, Classical.choice, Quot.sound}; the hand-written model Model/Rawdb.lean (tied to /repo by the differential run and tools/extract.py); harness/driver glue; OS page cache coherent with the mapping. Modelled rather than verified: all of rawdb (no Rust line is verified directly).",
+        technique="Lean 4 proof over an executable model of rawdb + lock-step correspondence with the real crate and a reference byte-vector oracle",
     ),
     "C02": dict(
         lean="AnyDB.Props.C02",
@@ -110,6 +120,9 @@ PROPS = {
         ],
         rule=RAWDB_RULE,
         assumptions=["Layout accessors pending_holes/start_to_reserved exposed by the verif_hooks feature (read-only)"],
+        level_text="Lean 4 theorems, unbounded in list length and sizes, for the allocator: promotion of deferred holes keeps the free list positive, pairwise disjoint and merged, covers exactly old free bytes + promoted bytes and stays disjoint from everything the inputs were disjoint from (C02_promote); hole split (C02_split); best fit (C02_best_fit); placement reuses free space and does not grow the file whenever an adequate hole exists, for relocation and for creation (C02_place_reuses, C02_place_end, C02_create_reuses); the file growth rule (C02_growth); flush leaves no deferred hole (C02_flush_promotes). The whole-database invariant over complete histories is checked on the implementation's real layout after every request by an independent checker and the model's layout is compared field by field with the real one (regions, holes, pending, reservations, file length, Layout::len); its Lean composition per placement path is the part still open.",
+        level_note="Trusted: Lean kernel + standard axioms; hand-written model (Model/Rawdb.lean) tied to /repo by differential run + extractor; the guarded read-only Layout accessors. Modelled rather than verified: layout.rs, region.rs write_with, lib.rs create/set_min_len/flush.",
+        technique="Lean 4 proof of allocator invariants (induction over the pending-hole list) + full-layout lock-step correspondence + independent invariant checker on the real layout",
     ),
     "C13": dict(
         lean="AnyDB.Props.C13",
@@ -119,6 +132,9 @@ PROPS = {
         ],
         rule=RAWDB_RULE + "; about one request in four is a refusal chosen from the current state; the 'held' stream ends each case with a removal while an extra handle is alive",
         assumptions=["reference counts are a run-time notion: the model takes `extra handle alive` as an input of remove"],
+        level_text="Lean 4 theorem C13_rawdb: for every model state and every rawdb request (write, write_at, truncate_write, truncate, rename, remove, remove with a live extra handle), if the answer is one of the refusals the property lists then the ENTIRE model state (layout, slot table, metadata file image, data bytes, dirty bounds, event log) is unchanged, hence so is the outcome of every later operation; proved for all states, not only reachable ones. Tied to the code by the lock-step run with ~25% refused requests, a state-unchanged oracle evaluated on the real crate after each refusal, and random continuations. vecdb refusals (checked push, import mismatch, rollback without record) are covered by the vec engine under C03/C04/C14/C16.",
+        level_note="Trusted: Lean kernel + standard axioms; hand-written model; harness. Reference counts are run-time: `extra handle alive` is an input of the model's remove. The pinned tree violated this property (F1, refused removal mutated the layout); repaired by fix: commit 33df3c8, listed as fixed in known_findings.json.",
+        technique="Lean 4 proof (state equality after every refused request) over the rawdb model + refusal-heavy lock-step correspondence",
     ),
 }
 
